@@ -10,7 +10,7 @@
    proof at whole-writer level needs Model/AstWriter.v. *)
 From PV Require Import Base.Prelude Spec.LuaTokens Model.FmtSpaces Model.FmtSpacesInst Model.WriterChunks
   Model.Tokens Model.AstWriter Generated.T_fmtspaces Proofs.FmtSpacesProofs Proofs.FmtLinesProofs Proofs.FmtChunksProofs
-  Proofs.AstWriterIndent.
+  Proofs.AstWriterIndent Spec.LuaGrammar Model.Parser Model.ParserInst Model.WriterDomain Proofs.AstWriterLines.
 
 (* the pipeline only moves white space: every other byte of the run (comment text) is kept, in order *)
 Theorem C10_run_keeps_comment_text : forall cfg r, nonws (fmt_run cfg r) = nonws r.
@@ -178,3 +178,148 @@ Proof. split; [discriminate|]. split; vm_compute; reflexivity. Qed.
 Example C10_nonvacuous_S17 :
   fmt_run (mk_fcfg false false 2 1) [NL; NL] = [NL; NL; SP; SP].
 Proof. vm_compute. reflexivity. Qed.
+
+(* ---------- whole programs ----------
+   For a token list the parser model reads to its end, with the tree inside the writer's domain (Model/WriterDomain.v
+   writable, the domain of C09_aligned) and tidy token codes (codes_tidy: the code of every significant token is not
+   empty, does not begin with a line feed, does not end in a blank or line feed, and holds neither "blank, line feed"
+   nor three line feeds in a row - true of every token but multi-line strings), the hypotheses of the _partial
+   theorems above are discharged: luafmt's output IS such a chunk list (C09_aligned), it is separated (every
+   white-space run the walk reads is complete: Proofs/AstWriterLines.v tiling_separated), no run before a code token
+   reaches the end of the file, the code texts are tidy. *)
+
+(* in the whole output no line ends in white space and at most one blank line separates lines *)
+Theorem C10_shape : forall ts w root e,
+  lua_parse ts = Ok (root, e) -> consumed ts e = true -> writable ts root = true -> codes_tidy ts = true ->
+  exists out, writer_text (fmt_spaces w) ts (view root) = Ok out /\ has_sp_nl out = false /\ has3nl out = false.
+Proof. exact program_shape. Qed.
+Print Assumptions C10_shape.
+
+(* every code token that begins a line of the output is preceded by exactly indentwidth x n spaces, n >= 0 the value of
+   the writer's nesting counter at the white-space run before the token; _partial: that n is the number of blocks and
+   brackets open at the token is the statement C10_indent *)
+Theorem C10_indent_counter_partial : forall ts w root e,
+  lua_parse ts = Ok (root, e) -> consumed ts e = true -> writable ts root = true -> codes_tidy ts = true ->
+  exists cs, writer_text (fmt_spaces w) ts (view root) = Ok (chunks_text (fmt_spaces w) cs) /\ codes_of cs = sig_codes ts 0 /\
+    forall A i text B p q, cs = A ++ Code i text :: B ->
+      chunks_text (fmt_spaces w) A = p ++ NL :: q -> noNL q -> forallb is_sp q = true ->
+      exists ind, last_ind None A = Some ind /\ 0 <= ind /\ q = repeat SP (Z.to_nat w * Z.to_nat ind).
+Proof. exact program_indent_counter. Qed.
+Print Assumptions C10_indent_counter_partial.
+
+(* non-vacuity: `do / x = {1, / f(2)} / end` (badly indented) satisfies the hypotheses; luafmt with width 2 writes
+   `do / ..x = {1, / ....f(2)} / end` *)
+Definition C10_example_tokens : list token :=
+  [mkTok CKeyword 0 [100; 111] [100; 111];
+   mkTok CNewline 0 [10] [10];
+   mkTok CName 0 [120] [120];
+   mkTok CSpace 0 [32] [32];
+   mkTok CSymbol 0 [61] [61];
+   mkTok CSpace 0 [32] [32];
+   mkTok CSymbol 0 [123] [123];
+   mkTok CNumber 0 [49] [49];
+   mkTok CSymbol 0 [44] [44];
+   mkTok CNewline 0 [10] [10];
+   mkTok CSpace 0 [32; 32] [32; 32];
+   mkTok CName 0 [102] [102];
+   mkTok CSymbol 0 [40] [40];
+   mkTok CNumber 0 [50] [50];
+   mkTok CSymbol 0 [41] [41];
+   mkTok CSymbol 0 [125] [125];
+   mkTok CNewline 0 [10] [10];
+   mkTok CSpace 0 [32; 32] [32; 32];
+   mkTok CKeyword 0 [101; 110; 100] [101; 110; 100];
+   mkTok CNewline 0 [10] [10]].
+
+Example C10_program_nonvacuous :
+  exists root e, lua_parse C10_example_tokens = Ok (root, e) /\ consumed C10_example_tokens e = true /\
+    writable C10_example_tokens root = true /\ codes_tidy C10_example_tokens = true /\
+    writer_text (fmt_spaces 2) C10_example_tokens (view root) = Ok ("do
+  x = {1,
+    f(2)}
+end
+"%bs : list Z).
+Proof.
+  eexists _, _. split; [vm_compute; reflexivity|]. split; [vm_compute; reflexivity|]. split; [vm_compute; reflexivity|].
+  split; vm_compute; reflexivity.
+Qed.
+
+From PV Require Import Spec.TokenDepth Proofs.ParserProofs Proofs.TreeShape Proofs.WriterCursor Proofs.AstWriterDepth.
+
+(* ---------- the nesting counter is the reference depth ----------
+   Spec/TokenDepth.v token_depth ts i: the number of blocks and brackets open at token i of the input, by the rules of
+   the reference reader Spec/FmtShape.v (written from the manuals; tok_depth_at_agrees / tok_depth_after_agrees: the
+   same function on tokens).  Two more computable exclusions on the tree (Proofs/AstWriterDepth.v):
+     no_short_else    no one-line `if (c) ... else ...` (the writer indents its else part by one, the reference counts
+                      `else` without `then` / `end` as net zero; a token of the else part never begins a line)
+     no_trailing_sep  no table constructor with a trailing field separator `{1,2,}` (the writer writes it after leaving the
+                      table's level: C10_indent_trailing_sep_refuted below). *)
+
+(* every non-empty white-space run the writer hands to _get_code_for_spaces that ends before the end of the token list
+   ends at a significant token i and is passed _indent = token_depth ts i *)
+Theorem C10_indent_link : forall ts root e,
+  lua_parse ts = Ok (root, e) -> consumed ts e = true -> writable ts root = true ->
+  no_short_else root = true -> no_trailing_sep root = true ->
+  exists cs, writer_chunks ts (view root) = Ok (cs, zlen ts) /\
+    forall s ind at_end run, In (Trivia s ind at_end run) cs -> run <> [] -> s + zlen run < zlen ts ->
+      sigb ts (s + zlen run) = true /\ ind = token_depth ts (s + zlen run).
+Proof. exact program_depth. Qed.
+Print Assumptions C10_indent_link.
+
+(* C10's indentation clause for whole programs: a code token (token i of the input) that begins a line of luafmt's output
+   is preceded by exactly indentwidth x (number of blocks and brackets open at token i) spaces *)
+Theorem C10_indent : forall ts w root e,
+  lua_parse ts = Ok (root, e) -> consumed ts e = true -> writable ts root = true -> codes_tidy ts = true ->
+  no_short_else root = true -> no_trailing_sep root = true ->
+  exists cs, writer_text (fmt_spaces w) ts (view root) = Ok (chunks_text (fmt_spaces w) cs) /\ codes_of cs = sig_codes ts 0 /\
+    forall A i text B p q, cs = A ++ Code i text :: B ->
+      chunks_text (fmt_spaces w) A = p ++ NL :: q -> noNL q -> forallb is_sp q = true ->
+      sigb ts i = true /\ 0 <= token_depth ts i /\ q = repeat SP (Z.to_nat w * Z.to_nat (token_depth ts i)).
+Proof. exact program_indent. Qed.
+Print Assumptions C10_indent.
+
+(* non-vacuity: the example program above satisfies the two exclusions too; `x` (token 2) is at depth 1, `f` (token 11)
+   at depth 2, `end` (token 18) at depth 0 *)
+Example C10_indent_nonvacuous :
+  exists root e, lua_parse C10_example_tokens = Ok (root, e) /\ consumed C10_example_tokens e = true /\
+    writable C10_example_tokens root = true /\ codes_tidy C10_example_tokens = true /\
+    no_short_else root = true /\ no_trailing_sep root = true /\
+    map (token_depth C10_example_tokens) [2; 11; 18] = [1; 2; 0].
+Proof.
+  eexists _, _. split; [vm_compute; reflexivity|]. repeat (split; [vm_compute; reflexivity|]). vm_compute. reflexivity.
+Qed.
+
+(* the exclusion no_trailing_sep is needed: `x={1 / ,}` is inside the domain of C10_shape, the `,` (token 5, reference
+   depth 1) begins a line of the output at column 0 (real luafmt: the same text) *)
+Definition C10_trailing_sep_tokens : list token :=
+  [mkTok CName 0 [120] [120];
+   mkTok CSymbol 0 [61] [61];
+   mkTok CSymbol 0 [123] [123];
+   mkTok CNumber 0 [49] [49];
+   mkTok CNewline 0 [10] [10];
+   mkTok CSymbol 0 [44] [44];
+   mkTok CSymbol 0 [125] [125];
+   mkTok CNewline 0 [10] [10]].
+
+Example C10_indent_trailing_sep_refuted :
+  exists root e, lua_parse C10_trailing_sep_tokens = Ok (root, e) /\ consumed C10_trailing_sep_tokens e = true /\
+    writable C10_trailing_sep_tokens root = true /\ codes_tidy C10_trailing_sep_tokens = true /\
+    no_short_else root = true /\ no_trailing_sep root = false /\
+    token_depth C10_trailing_sep_tokens 5 = 1 /\
+    writer_text (fmt_spaces 2) C10_trailing_sep_tokens (view root) = Ok ("x={1
+,}
+"%bs : list Z).
+Proof.
+  eexists _, _. split; [vm_compute; reflexivity|]. repeat (split; [vm_compute; reflexivity|]). vm_compute. reflexivity.
+Qed.
+
+(* the first line: a prefix of luafmt's output (up to a chunk boundary) that consists of blanks only and holds no line feed is
+   empty - whatever begins the first line of the file (a code token or a comment) sits at column 0
+   (hypotheses as C10_shape; non-vacuity: C10_program_nonvacuous) *)
+Theorem C10_first_line : forall ts w root e,
+  lua_parse ts = Ok (root, e) -> consumed ts e = true -> writable ts root = true -> codes_tidy ts = true ->
+  exists cs, writer_text (fmt_spaces w) ts (view root) = Ok (chunks_text (fmt_spaces w) cs) /\ codes_of cs = sig_codes ts 0 /\
+    forall A B, cs = A ++ B -> noNL (chunks_text (fmt_spaces w) A) -> forallb is_sp (chunks_text (fmt_spaces w) A) = true ->
+      chunks_text (fmt_spaces w) A = [].
+Proof. exact program_first_line. Qed.
+Print Assumptions C10_first_line.
